@@ -32,11 +32,15 @@ RULE = ("cases = (PDA definition, word) for runs and (definition) for validation
         "and mutant killers, then every table of a small domain (≤2 states, 1 input symbol, 2 stack "
         "symbols, ≤3 rows, pushes ≤2, all modes and final sets, words ≤3), then shaped random tables "
         "(≤3 states, adversarial state names, λ-cycles, accepting start configurations, overlapping "
-        "alphabets, str/tuple pushes) and malformed definitions; a run is non-trivial when at least one "
+        "alphabets incl. non-ASCII ones, str/tuple pushes, NPDA entries that are empty sets), a dense family "
+        "with 4–5 states and words up to length 9, definitions declaring '' as a stack symbol (must be "
+        "refused) and malformed definitions; a run is non-trivial when at least one "
         "move is taken; distinct = distinct (definition, word) pairs")
 ASSUMPTIONS = [
-    "symbols are single characters; the empty string is never used as a stack symbol (PDAStack.top() returns '' "
-    "for an empty stack, so a table keyed by '' would let an empty stack move; the model has no such key)",
+    "symbols are single characters; the empty string is not a stack symbol: PDA.validate refuses it (fix cb4efab; "
+    "PDAStack.top() returns '' for an empty stack, so a table keyed by '' let an empty stack move), hence no valid "
+    "table has such a key and the model's stack-symbol type has no such value — every run checks that the "
+    "constructors refuse such definitions and, if one is accepted, evaluates the property on it",
     "pushed values are str or tuple (a list inside a DPDA entry is unhashable in _get_next_configuration)",
     "state names are hashable values without int/bool/float collisions",
     "runs are compared up to a level/step budget: a λ-cycle makes the real reader loop forever, the model "
@@ -262,6 +266,8 @@ def other_rules_ok(spec: dict) -> bool:
             for X in sp:
                 if X not in spec["stack_symbols"]:
                     return False
+    if "" in spec["stack_symbols"]:  # fix cb4efab: the empty string is no stack symbol
+        return False
     return (spec["initial_state"] in spec["states"] and spec["initial_stack_symbol"] in spec["stack_symbols"]
             and set(spec["final_states"]) <= set(spec["states"]) and spec["acceptance_mode"] in MODES)
 
@@ -363,6 +369,8 @@ def check_validate(ctx: Ctx, kind: str, spec: dict, enc: Enc, built, origin: str
 def check_table(ctx: Ctx, kind: str, spec: dict, words, origin: str, level_cap: int = 12, size_cap: int = 80,
                 validate: bool = True):
     """All observations of one definition: constructor, runs on `words`, DPDA-vs-NPDA pair."""
+    if "" in spec["stack_symbols"]:
+        return check_empty_stack_symbol(ctx, kind, spec, words, origin, level_cap, size_cap)
     enc = Enc(kind, spec)
     built = build(kind, spec)
     two = False
@@ -374,6 +382,11 @@ def check_table(ctx: Ctx, kind: str, spec: dict, words, origin: str, level_cap: 
     ref = Ref(kind, spec)
     drv = ctx.driver(DRV)
     words = list(words)
+    if kind == "N" and any(len(e) == 0 for row in spec["transitions"].values() for sp in row.values()
+                           for e in sp.values()):
+        ctx.stat("npda_table_with_an_empty_set_entry")
+    if any(ord(ch) > 127 for ch in "".join(spec["input_symbols"]) + "".join(spec["stack_symbols"])):
+        ctx.stat("table_over_a_non_ascii_alphabet")
     if kind == "N":
         run_npda(ctx, drv, obj, spec, enc, ref, words, origin, level_cap, size_cap, "NPDA_RUN", "N")
         return
@@ -428,6 +441,61 @@ def check_table(ctx: Ctx, kind: str, spec: dict, words, origin: str, level_cap: 
                 ctx.prop_fail(f"DPDA and NPDA with the same table disagree on {w!r}: DPDA {dv}, NPDA {nv}",
                               dict(kind="D", spec=spec_repr(spec), word=w, op="pair", level_cap=level_cap,
                                    size_cap=size_cap), None)
+
+
+def check_empty_stack_symbol(ctx: Ctx, kind: str, spec: dict, words, origin: str, level_cap: int, size_cap: int):
+    """'' declared as a stack symbol.  PDA.validate refuses it first thing (fix cb4efab): PDAStack.top()
+    returns '' for an empty stack, so a table keyed by '' would let an empty stack move.  The model's
+    stack-symbol type has no such value, so nothing is asked of the driver: the expected constructor
+    outcome is InvalidSymbolError.  If the constructor accepts the definition, it is a valid table as far
+    as the code is concerned and the property must hold for it: the runs are judged by the reference
+    semantics (an empty stack has no move)."""
+    cname = "NPDA" if kind == "N" else "DPDA"
+    built = build(kind, spec)
+    ctx.case(None)
+    ctx.stat(origin + ":validate")
+    ctx.stat("empty_string_declared_as_stack_symbol")
+    ctx.stat(f"{cname.lower()}_ctor:" + (built[1] if built[0] == "err" else "ok"))
+    case = dict(kind=kind, spec=spec_repr(spec), op="validate")
+    if built == ("err", "InvalidSymbolError"):
+        return
+    if built[0] == "err":
+        ctx.corr_diff(cname + "_VALIDATE", case, built, ("err", "InvalidSymbolError"))
+        return
+    obj, enc, ref = built[1], Enc(kind, spec), Ref(kind, spec)
+    before = ctx.n_prop_fails
+    for w in words:
+        if kind == "N":
+            levels, out = impl_npda(obj, w, level_cap, size_cap)
+            ys = [sorted(enc.cfg(c) for c in lv) for lv in levels]
+            eys, eout = ref.expected_npda(w, level_cap, size_cap)
+            expected = dict(yields=[sorted(enc.ref_cfg(c) for c in lv) for lv in eys], out=eout)
+        else:
+            trace, out = impl_dpda(obj, w, level_cap)
+            ys = [enc.cfg(c) for c in trace]
+            eys, eout = ref.expected_dpda(w, level_cap)
+            expected = dict(yields=[enc.ref_cfg(c) for c in eys], out=eout)
+        decided = out != "fuel"
+        acc = call_res(lambda: obj.accepts_input(w)) if decided else None
+        impl = dict(yields=ys, out=out, acc=None if acc is None else ((acc[0], int(acc[1])) if acc[0] == "ok" else acc))
+        ctx.case((kind + "e", enc.text, w) if nontrivial(ys) else None)
+        ctx.stat(origin + ":accepted_by_code_only")
+        wrong = []
+        if impl["yields"] != expected["yields"]:
+            wrong.append("the yields differ from the configurations reachable by moves (an empty stack has no move)")
+        if impl["out"] != expected["out"]:
+            wrong.append(f"reader ends with {impl['out']}, reference semantics says {expected['out']}")
+        if decided and expected["out"] in ("returned", "raised RejectionException") \
+                and impl["acc"] != ("ok", int(expected["out"] == "returned")):
+            wrong.append(f"accepts_input gives {impl['acc']}")
+        if wrong:
+            ctx.prop_fail(f"{cname} whose table is keyed by the empty string (accepted by the constructor) reading "
+                          f"{w!r}: " + "; ".join(wrong),
+                          dict(kind=kind, spec=spec_repr(spec), word=w, op="run", level_cap=level_cap,
+                               size_cap=size_cap, impl=impl, expected=expected), None)
+    if ctx.n_prop_fails == before:
+        # accepted although PDA.validate is expected to refuse it, and no run went wrong
+        ctx.corr_diff(cname + "_VALIDATE", case, ("ok", None), ("err", "InvalidSymbolError"))
 
 
 def run_npda(ctx, drv, obj, spec, enc, ref, words, origin, level_cap, size_cap, cmd, tag):
@@ -576,8 +644,8 @@ def run_small(ctx: Ctx, n_states: int, rows, words, origin, level_cap, size_cap)
         first = False
 
 
-STACK_ALPHABETS = ["Z", "ZY", "ZYX", "0a", "#AB", "ab"]
-INPUT_ALPHABETS = ["a", "ab", "ab", "01", "abc"]
+STACK_ALPHABETS = ["Z", "ZY", "ZYX", "0a", "#AB", "ab", "Ωß", "ZY"]
+INPUT_ALPHABETS = ["a", "ab", "ab", "01", "abc", "éλ", "ab"]
 
 
 def rand_push(rng, stsyms, extra=""):
@@ -620,6 +688,10 @@ def rand_table(rng, kind: str, deterministic: bool):
             sp.setdefault(X, set()).add(e)
             if rng.random() < 0.3:
                 sp[X].add((rng.choice(tnames), rand_push(rng, stsyms, extra)))
+            if rng.random() < 0.06:
+                # an entry that is an empty set: `X in transitions[q][a]` holds (so _has_lambda_transition is
+                # true for a == ""), but there is no successor
+                sp[rng.choice(stsyms)] = set()
     if rng.random() < 0.1 and names:
         t.setdefault(rng.choice(names), {})  # a state with an empty row
     if rng.random() < 0.08 and t:
@@ -633,10 +705,12 @@ def rand_table(rng, kind: str, deterministic: bool):
     return mk_spec(names, insyms, stsyms, t, init, z, finals, mode)
 
 
-def dense_table(rng, kind: str, deterministic: bool):
+def dense_table(rng, kind: str, deterministic: bool, n_states=(1, 3)):
     """Few states and symbols, most keys filled: long chains of moves, branching, λ-cycles."""
-    n = rng.randint(1, 3)
+    n = rng.randint(*n_states)
     names = gen.name_pool(rng, n)[:n]
+    if len(names) < n:
+        names = list(range(n))
     insyms = rng.choice(["a", "ab", "ab"])
     stsyms = rng.choice(["Z", "ZY", "ZY", "ZYX"])
     fill = rng.choice([0.35, 0.5, 0.7, 0.9])
@@ -663,7 +737,7 @@ def dense_table(rng, kind: str, deterministic: bool):
                 if kind == "D":
                     sp[X] = entry()
                 else:
-                    sp[X] = {entry() for _ in range(rng.choice([1, 1, 2, 3]))}
+                    sp[X] = {entry() for _ in range(rng.choice([1, 1, 2, 3] if rng.random() < 0.95 else [0]))}
     r = rng.random()
     finals = set() if r < 0.1 else {q for q in names if rng.random() < 0.4}
     if rng.random() < 0.15:
@@ -772,6 +846,23 @@ def corpus():
     yield "N", dict(kw, transitions={"q0": {"": {"Z": {("q0", "ZZ")}}, "a": {"Z": {("q1", "")}}},
                                      "q1": {"": {"Z": {("q1", "")}}}}, final_states=set(),
                     acceptance_mode="empty_stack"), ["", "a", "aa"]
+    # an NPDA entry that is an empty set: the λ-guard `_has_lambda_transition` is true, no successor exists
+    yield "N", dict(kw, transitions={"q0": {"": {"Z": set()}}}, final_states={"q1"},
+                    acceptance_mode="final_state"), ["", "a"]
+    yield "N", dict(kw, transitions={"q0": {"a": {"Z": set()}, "": {"Z": {("q1", "Z")}}}, "q1": {"": {"Z": set()}}},
+                    final_states={"q1"}, acceptance_mode="both"), ["", "a", "aa"]
+    # review rev1 GAP-2 (repaired by cb4efab): '' declared as a stack symbol and used as a key — PDAStack.top()
+    # of an empty stack is '', so the empty stack moved to q1 and '' was accepted.  Must be refused now.
+    for kind in "ND":
+        e = (lambda x: {x}) if kind == "N" else (lambda x: x)
+        yield kind, dict(states={"q0", "q1"}, input_symbols={"a"}, stack_symbols={"Z", ""},
+                         transitions={"q0": {"": {"Z": e(("q0", "")), "": e(("q1", "Z"))}}},
+                         initial_state="q0", initial_stack_symbol="Z", final_states={"q1"},
+                         acceptance_mode="final_state"), ["", "a"]
+        yield kind, dict(states={"q0", "q1"}, input_symbols={"a"}, stack_symbols={"Z", ""},
+                         transitions={"q0": {"a": {"Z": e(("q0", "")), "": e(("q1", ("Z",)))}}},
+                         initial_state="q0", initial_stack_symbol="Z", final_states={"q1"},
+                         acceptance_mode="both"), ["", "a", "aa"]
 
 
 # ----------------------------------------------------------------- entry points
@@ -808,6 +899,23 @@ def run(ctx: Ctx):
     for _ in range(ctx.budget(2000, 25000)):
         spec = (dense_table if rng.random() < 0.6 else rand_table)(rng, "D", rng.random() < 0.85)
         check_table(ctx, "D", spec, rand_words(rng, spec, 4, 6, "D"), "random_dpda", 40 if thorough else 24, 80)
+    # ---- a larger dense family: 4–5 states, words up to length 9
+    for _ in range(ctx.budget(300, 5000)):
+        kind = rng.choice("ND")
+        spec = dense_table(rng, kind, rng.random() < 0.85, n_states=(4, 5))
+        check_table(ctx, kind, spec, rand_words(rng, spec, 3, 9, kind), "random_dense_4to5_states",
+                    40 if thorough else 24, 80)
+    # ---- '' declared as a stack symbol (refused by PDA.validate since cb4efab)
+    for _ in range(ctx.budget(80, 1500)):
+        kind = rng.choice("ND")
+        spec = (dense_table if rng.random() < 0.5 else rand_table)(rng, kind, True)
+        spec["stack_symbols"] = set(spec["stack_symbols"]) | {""}
+        rows = [(q, a) for q, row in spec["transitions"].items() for a in row]
+        if rows and rng.random() < 0.75:
+            q, a = rng.choice(rows)
+            e = (rng.choice(sorted(spec["states"], key=repr)), rng.choice(sorted(spec["stack_symbols"])))
+            spec["transitions"][q][a][""] = e if kind == "D" else {e}
+        check_table(ctx, kind, spec, rand_words(rng, spec, 3, 5, kind), "empty_string_stack_symbol")
     # ---- malformed definitions
     for _ in range(ctx.budget(600, 20000)):
         kind = rng.choice("ND")
